@@ -27,7 +27,7 @@ CONSTANTS ReqHandles,   \* abstract handles a request is drawn from
           StoreIds,     \* identifiers of the stored text sets
           FRefs, FVers, FLangs, FWidths, FLines   \* values of the five constraint kinds (<<>> = not given)
 
-VARIABLE case
+VARIABLES case, dom
 
 Rng(q) == {q[i] : i \in DOMAIN q}
 
@@ -220,7 +220,7 @@ TextLaw(S, f) ==
   \* dropping a constraint can only admit more texts; all constraints dropped admits every text
   /\ \A k \in Kinds : Matching(S, f) \subseteq Matching(S, Drop(f, k))
   \* matching is decided text by text
-  /\ \A t \in S : (t \in Matching(S, f)) = (Matching({t}, f) = {t})
+  /\ Matching(S, f) = UNION {Matching({t}, f) : t \in S}
   \* the widest width / largest number of lines of the domain constrain nothing
   /\ Matching(S, [f EXCEPT !.width = <<"xxl">>]) = Matching(S, Drop(f, "width"))
   /\ Matching(S, [f EXCEPT !.lines = <<3>>]) = Matching(S, Drop(f, "lines"))
@@ -233,18 +233,19 @@ TextLaw(S, f) ==
 (* ====================================================================================== *)
 (* behaviours: one state per case                                                         *)
 (* ====================================================================================== *)
-InitH == case \in HCases
-InitT == case \in SCases \cup TCases
-Next == FALSE /\ UNCHANGED case
-SpecH == InitH /\ [][Next]_case
-SpecT == InitT /\ [][Next]_case
+\* dom: the abstract MDIB / stored text set of the case (a state variable so that it is computed once per case)
+InitH == case \in HCases /\ dom = MdibOf(case.v)
+InitT == case \in SCases \cup TCases /\ dom = StoreOf(case.p)
+Next == FALSE /\ UNCHANGED <<case, dom>>
+Init == InitH \/ InitT
+Spec == Init /\ [][Next]_<<case, dom>>
 
-LawH == case.kind = "h" => HandleLaw(MdibOf(case.v), case.req)
-LawS == case.kind = "s" => StoreLaw(StoreOf(case.p))
-LawT == case.kind = "t" => TextLaw(StoreOf(case.p), case.f)
+LawH == case.kind = "h" => HandleLaw(dom, case.req)
+LawS == case.kind = "s" => StoreLaw(dom)
+LawT == case.kind = "t" => TextLaw(dom, case.f)
 
 Payload == CASE case.kind = "h" -> case
-             [] case.kind = "s" -> [kind |-> "s", p |-> case.p, texts |-> StoreOf(case.p)]
+             [] case.kind = "s" -> [kind |-> "s", p |-> case.p, texts |-> dom]
              [] case.kind = "t" -> case
 EmitCase == PrintT(<<"CASE", ToJson(Payload)>>)
 
